@@ -4,6 +4,7 @@ pub mod emit;
 pub mod gen;
 pub mod pools;
 pub mod reduce;
+pub mod malformed;
 
 pub fn fnv(b: &[u8]) -> u64 {
     let mut h: u64 = 0xcbf29ce484222325;
